@@ -60,4 +60,16 @@ for v in $(need_builds "$ID"); do
   fi
 done
 [ -n "$MODARG" ] && rm -f "$MODFILE" "${MODFILE%.mod}.sum"
+if [ "$ID" = "C09" ]; then
+  # independent NFKD oracle: python's unicodedata writes the passphrase/word corpus for this seed and tier
+  PY="$(command -v python3 || echo /usr/bin/python3)"
+  export VERIF_C09_CORPUS="$ROOT/work/c09-corpus-$$.jsonl"
+  if [ "$TIER" = "thorough" ]; then NP=300000; NW=600000; else NP=8000; NW=24000; fi
+  if ! "$PY" "$ROOT/tools/nfkd_corpus.py" "${VERIF_SEED:-1}" $NP $NW > "$VERIF_C09_CORPUS"; then
+    echo "INCONCLUSIVE property=C09 reason=python NFKD corpus could not be generated"; exit 2
+  fi
+  "$ROOT/bin/vmon" run "$ID" "$TIER"; rc=$?
+  rm -f "$VERIF_C09_CORPUS"
+  exit $rc
+fi
 exec "$ROOT/bin/vmon" run "$ID" "$TIER"
